@@ -399,6 +399,8 @@ class C19Engine(Engine):
             fail("cli/replies-not-printed", text[:300])
         if "Disconnected" not in text:
             fail("cli/no-disconnect-message", text[-200:])
+        elif not (text.find("Connected to") < text.find("False") < text.rfind("Disconnected")):
+            fail("cli/output-out-of-order", text[:300])
         if proc.returncode != 0:
             fail("cli/exit-status", str(proc.returncode) + err.decode(errors="replace")[-200:])
 
